@@ -89,7 +89,7 @@ PROPS = {
         ] + [
             {"engine": "E2", "module": "lib", "harness": "h_ifdata_soup_%d" % n, "functions": ["load_from_string", "ifdata::parse_ifdata", "ifdata::parse_unknown_ifdata_start", "ifdata::parse_unknown_ifdata", "ifdata::parse_unknown_taggedstruct", "parser::get_string", "tokenizer::handle_a2ml"],
              "bound": "uninterpreted IF_DATA holding every %d-lexeme soup over {/begin B, /end B, ident, hex number, string, empty string, block comment, line comment, embedded A2ML section (raw text '\"' / 'x y')}, closed or cut off, strict and non-strict: loading returns, accepted text loads again" % n,
-             "timeout": 300, "extra_modules": ["tokenizer"], "max_steps": 3000000, "quick": n <= 2}
+             "timeout": 300, "extra_modules": ["tokenizer"], "max_steps": 3000000, "quick": n <= 2, "msg_prefix": "C03"}
             for n in (1, 2, 3)
         ],
     },
@@ -225,6 +225,14 @@ PROPS = {
              "bound": "the repository's own 340-line sample document (every element kind once): load, write, load, write (one concrete path)", "timeout": 600, "extra_modules": ["tokenizer"], "max_steps": 50000000},
             {"engine": "E2", "module": "lib", "harness": "h_ifdata_definitions", "msg_prefix": "C01", "functions": ["load_from_string", "tokenizer::handle_a2ml", "A2ml::stringify", "a2ml::GenericIfData::write", "A2lFile::write_to_string"],
              "bound": "5 A2ML definitions x {conforming, deviating IF_DATA} x {LF, CRLF}: reload equal, second write identical", "timeout": 400, "extra_modules": ["tokenizer"]},
+        ] + [
+            {"engine": "E2", "module": "lib", "harness": "h_ifdata_soup_%d" % n, "msg_prefix": "C01", "functions": ["load_from_string", "ifdata::parse_unknown_ifdata_start", "a2ml::GenericIfData::write", "A2lFile::write_to_string"],
+             "bound": "every %d-lexeme soup inside an uninterpreted IF_DATA (see C03), strict and non-strict: whatever is accepted is written to text that loads again (known finding D20 excludes soups with a line comment that is not the last lexeme while it is listed)" % n,
+             "timeout": 300, "extra_modules": ["tokenizer"], "max_steps": 3000000, "quick": n <= 2}
+            for n in (2, 3)
+        ] + [
+            {"engine": "E2", "module": "lib", "harness": "h_ifdata_soup_known_d20", "known": "D20", "functions": ["load_from_string", "A2lFile::write_to_string"],
+             "bound": "the recorded input of known finding D20", "timeout": 200, "extra_modules": ["tokenizer"]},
         ],
     },
     "C07": {
